@@ -3,7 +3,9 @@
 
 State  = (reaction row of activation.dat, fluence, Cd ratio, fast ratio, exposure, mass, rest time).
          ALL 513 rows are visited; the environment grid sits on the code-visible break points
-         (Cd ratio {0, 1, 70}, fast ratio {0, 50}, and - per single-capture row - two extra
+         (Cd ratio {0, 0.5, 0.999999, 1, 1.000001, 70} and fast ratio {0, 0.02, 0.5, 0.999999, 1, 1.000001, 50}:
+         zero, inside (0, 1), just below / at / just above 1, a usual value - combined cross-shaped: every fast
+         ratio at Cd {0, 1, 70}, every Cd ratio at fast {0, 50}; and - per single-capture row - two extra
          exposures that bracket the documented small-argument threshold max(U, V) = 1e-10).
 Oracle = (i) point: activation.activity(isotope, mass, env, exposure, rests)[row][rest] against the
          80-digit decimal solution of the row's chain (mc.ref.activation), relative 1e-9,
@@ -46,8 +48,14 @@ REL = 1e-9
 TINY = 1e-290
 KFACTOR = 64.0
 
-CD = (0.0, 1.0, 70.0)
-FAST = (0.0, 50.0)
+# Break points of the two ratios (the statement: epithermal capture is omitted when the cadmium ratio is below 1,
+# fast reactions only when the fast ratio is 0): 0, inside (0, 1), just below 1, 1, just above 1, a usual value.
+CD = (0.0, 0.5, 0.999999, 1.0, 1.000001, 70.0)
+FAST = (0.0, 0.02, 0.5, 0.999999, 1.0, 1.000001, 50.0)
+CD_CORE = (0.0, 1.0, 70.0)
+FAST_CORE = (0.0, 50.0)
+# cross-shaped: every fast ratio at the three core Cd ratios, every Cd ratio at the two core fast ratios
+RATIOS = tuple((cd, fr) for cd in CD for fr in FAST if cd in CD_CORE or fr in FAST_CORE)
 MASS = (1.0, 1e-6, 1e3)          # the first entry is the base of the mass edges
 REST = (0.0, 1.0, 24.0, 1e5)
 GRID = dict(
@@ -58,8 +66,9 @@ GRID = dict(
                   exposure=(1e-3, 1e-2, 0.1, 1.0, 10.0, 100.0, 1e3, 1e4)),
 )
 SAMPLE_GRID = dict(
-    quick=dict(fluence=(1e5, 1e12), exposure=(1.0, 1e4), cd=(0.0, 70.0), fast=(0.0, 50.0)),
-    thorough=dict(fluence=(1e2, 1e5, 1e8, 1e12, 1e16), exposure=(1e-3, 1.0, 10.0, 1e4), cd=CD, fast=FAST),
+    quick=dict(fluence=(1e5, 1e12), exposure=(1.0, 1e4), cd=(0.0, 70.0), fast=(0.0, 0.5, 50.0)),
+    thorough=dict(fluence=(1e2, 1e5, 1e8, 1e12, 1e16), exposure=(1e-3, 1.0, 10.0, 1e4), cd=(0.0, 0.5, 1.0, 70.0),
+                  fast=(0.0, 0.5, 1.0, 50.0)),
 )
 SAMPLE_MASS = 2.5
 # compound samples: formula string, [(symbol, mass number or None, count)]
@@ -90,14 +99,16 @@ HIST = dict(
     quick=dict(fluence=(1e5, 1e12), depth=2),
     thorough=dict(fluence=(1e5, 1e12), depth=3),
 )
+HIST_CD = (0.0, 1.0, 70.0)
+HIST_FAST = (0.0, 0.5, 50.0)        # suppressed, more fast than thermal neutrons, a usual beam
 HIST_EXPOSURE = 1.0
 HIST_MASS = MASS[0]
 HIST_RESTS = (0.0, 24.0)
 TRANSFERS = ("same", "copy", "deepcopy")
 # histories of Sample / environment objects at the level of Sample.calculate_activation
 SAMPLE_HIST = dict(
-    quick=dict(fluence=1e12, cd=(0.0, 70.0), fast=(0.0, 50.0)),
-    thorough=dict(fluence=1e12, cd=CD, fast=FAST),
+    quick=dict(fluence=1e12, cd=(0.0, 70.0), fast=(0.0, 0.5, 50.0)),
+    thorough=dict(fluence=1e12, cd=HIST_CD, fast=HIST_FAST),
 )
 SAME = 1e-12        # two routes through the same arithmetic: equal up to summation order
 
@@ -105,7 +116,7 @@ META = dict(
     level="model_checking", engine="E1",
     technique="complete sweep of an embedded table x environment grid against an exact reference model",
     rule=("every one of the 513 reaction rows of activation.dat x every point of the environment grid "
-          "(fluence x exposure x Cd ratio x fast ratio x mass x rest time, plus per-row exposures bracketing "
+          "(fluence x exposure x (Cd ratio, fast ratio) x mass x rest time, plus per-row exposures bracketing "
           "the 1e-10 small-argument threshold) is executed through activation.activity() on the real isotope "
           "and compared with the 80-digit solution of the row's chain; a point is non-trivial when the row is "
           "expected in the result and its exact activity is above 1e-290 uCi; every natural element with "
@@ -116,17 +127,19 @@ META = dict(
           "recalculated) is compared with fresh objects - non-trivial when the last change of settings changes "
           "the result"),
     bound=dict(
-        quick="513 rows x 3024 environments (7 fluences x 6 exposures x Cd {0,1,70} x fast {0,50} x 3 masses "
-              "x 4 rest times) + threshold exposures; (82 natural elements + 15 compounds, 7 of them with ions, + "
-              "the natural-element ion and one isotope ion of each of the 80 elements that have charge states) x "
-              "16 environments x 3 abundance modes (default, NIST, IAEA); per isotope (224) all 792 histories of one "
-              "environment object: ordered pairs of 12 settings (fluence {1e5,1e12} x Cd {0,1,70} x fast {0,50}) x "
-              "used-before-hand-over {yes,no} x {same object, copy, deepcopy}; per sample all ordered pairs of 4 "
+        quick="513 rows x 13608 environments (7 fluences x 6 exposures x 27 ratio pairs x 3 masses x 4 rest times; "
+              "ratio pairs: fast ratio {0, 0.02, 0.5, 0.999999, 1, 1.000001, 50} at Cd {0, 1, 70} and Cd ratio "
+              "{0, 0.5, 0.999999, 1, 1.000001, 70} at fast {0, 50}) + threshold exposures; (82 natural elements + 15 "
+              "compounds, 7 of them with ions, + the natural-element ion and one isotope ion of each of the 80 elements "
+              "that have charge states) x 24 environments (2 fluences x 2 exposures x Cd {0,70} x fast {0,0.5,50}) x 3 "
+              "abundance modes (default, NIST, IAEA); per isotope (224) all 1836 histories of one environment object: "
+              "ordered pairs of 18 settings (fluence {1e5,1e12} x Cd {0,1,70} x fast {0,0.5,50}) x "
+              "used-before-hand-over {yes,no} x {same object, copy, deepcopy}; per sample all ordered pairs of 6 "
               "settings x {environment shared by two Samples, Sample recalculated} + a reused Formula object",
-        thorough="513 rows x 8640 environments (15 fluences 1e2..1e16 x 8 exposures 1e-3..1e4 x 3 x 2 x 3 x 4; "
-                 "contains the quick grid) + threshold exposures; the same samples x 120 environments x 3 abundance "
-                 "modes; per isotope the quick histories + all 2904 paths of three settings (used, same object / "
-                 "copy); per sample all ordered pairs of 6 settings"),
+        thorough="513 rows x 38880 environments (15 fluences 1e2..1e16 x 8 exposures 1e-3..1e4 x 27 ratio pairs x 3 x 4; "
+                 "contains the quick grid) + threshold exposures; the same samples x 320 environments (5 fluences x 4 "
+                 "exposures x Cd {0,0.5,1,70} x fast {0,0.5,1,50}) x 3 abundance modes; per isotope the quick histories + "
+                 "all 10404 paths of three settings (used, same object / copy); per sample all ordered pairs of 9 settings"),
     assumptions=[
         "the documented chain of a row is the one derived in mc/ref/activation.py from the activation.py "
         "docstring and the spreadsheet column comments (cross sections, fluxes and half-lives as tabulated)",
@@ -134,8 +147,11 @@ META = dict(
         "spreadsheet constants (not taken from periodictable.constants, which the activation module does not use)",
         "the natural abundance of an isotope is whatever the library serves (its correctness is C06); the "
         "IAEA abundance is the Abund column read by the independent reader",
-        "nothing is claimed for real-valued arguments off the grid; Cd ratios strictly between 0 and 1 and "
-        "the D/T alias isotopes (no activation record of their own) are outside the alphabet",
+        "nothing is claimed for real-valued arguments off the grid; the D/T alias isotopes (no activation record of "
+        "their own) are outside the alphabet",
+        "a cadmium ratio below 1 (0, 0.5, 0.999999) omits epithermal capture, as the statement says; a fast ratio "
+        "is a thermal/fast ratio and every positive value, also below 1 (more fast than thermal neutrons), gives the "
+        "fast flux fluence/fast_ratio; fast rows are omitted for fast ratio 0 only",
         "element masses used for compound mass fractions are read from the library (C06)",
         "an ion activates like the neutral atom (the charge does not change the nucleus); its mass fraction in a "
         "compound uses the ion's own mass as the library serves it",
@@ -307,7 +323,7 @@ def threshold_exposures(rows, envr, lo, hi):
     return sorted(out)
 
 
-def sweep_isotope(acc, L, key, fluences, exposures, only=None, masses=MASS, rests=REST, cds=CD, fasts=FAST,
+def sweep_isotope(acc, L, key, fluences, exposures, only=None, masses=MASS, rests=REST, ratios=RATIOS,
                   thresholds=True, exposure_edges=True):
     """All grid points of all rows of one isotope."""
     Z, A = key
@@ -326,8 +342,8 @@ def sweep_isotope(acc, L, key, fluences, exposures, only=None, masses=MASS, rest
     mdec = [RA.dec(m) for m in masses]
     cache = {}
     for fluence in fluences:
-        for cd in cds:
-            for fr in fasts:
+        if True:
+            for cd, fr in ratios:
                 env = L.env(fluence, cd, fr)
                 envr = RA.Env(fluence, cd, fr)
                 exps = list(exposures)
@@ -343,7 +359,8 @@ def sweep_isotope(acc, L, key, fluences, exposures, only=None, masses=MASS, rest
                             continue
                         if r.fast and fr == 0:
                             continue
-                        ck = (r.pos, fluence, cd, exposure) if not r.fast else (r.pos, fluence, cd, exposure, fr)
+                        # the reference depends on the Cd ratio only through its epithermal factor
+                        ck = (r.pos, fluence, envr.epi, exposure) if not r.fast else (r.pos, fluence, envr.epi, exposure, fr)
                         s = cache.get(ck)
                         if s is None:
                             s = cache[ck] = RA.solve(r, envr, exposure)
@@ -366,7 +383,7 @@ def sweep_isotope(acc, L, key, fluences, exposures, only=None, masses=MASS, rest
                             check_row(acc, r, sols.get(r.pos), out.get(r.pos), bad.get(r.pos), restf[r.pos],
                                       fluence, cd, fr, exposure, mass, mdec[mi], rests, mi, base, ok_at)
                 if exposure_edges:
-                    exposure_edges_check(acc, rows, only, ok_at, cache, fluence, cd, fr, sorted(exposures))
+                    exposure_edges_check(acc, rows, only, ok_at, cache, fluence, cd, fr, sorted(exposures), envr.epi)
 
 
 def check_row(acc, r, sol, vals, exc, restf, fluence, cd, fr, exposure, mass, mdec, rests, mi, base, ok_at):
@@ -477,7 +494,7 @@ def check_row(acc, r, sol, vals, exc, restf, fluence, cd, fr, exposure, mass, md
         ok_at[(r.pos, exposure)] = got0
 
 
-def exposure_edges_check(acc, rows, only, ok_at, cache, fluence, cd, fr, exposures):
+def exposure_edges_check(acc, rows, only, ok_at, cache, fluence, cd, fr, exposures, epi):
     """t1 < t2 => A(t2) >= A(t1) exp(-a (t2 - t1)); only between points that agree with the reference."""
     for r in rows:
         if (only is not None and r.pos not in only) or (r.fast and fr == 0):
@@ -489,8 +506,8 @@ def exposure_edges_check(acc, rows, only, ok_at, cache, fluence, cd, fr, exposur
                 if (r.pos, t1) not in ok_at or (r.pos, t2) not in ok_at:
                     acc.count("exposure_edges_skipped_endpoint_deviates")
                     continue
-                ck1 = (r.pos, fluence, cd, t1) if not r.fast else (r.pos, fluence, cd, t1, fr)
-                ck2 = (r.pos, fluence, cd, t2) if not r.fast else (r.pos, fluence, cd, t2, fr)
+                ck1 = (r.pos, fluence, epi, t1) if not r.fast else (r.pos, fluence, epi, t1, fr)
+                ck2 = (r.pos, fluence, epi, t2) if not r.fast else (r.pos, fluence, epi, t2, fr)
                 s1, s2 = cache[ck1], cache[ck2]
                 rate = s1.a if fam != "b" else Decimal(0)      # 'b' has no burn-up: monotone growth
                 dep = RA._exp(-rate * (RA.dec(t2) - RA.dec(t1)))
@@ -665,7 +682,7 @@ def sample_check(acc, L, name, spec, fluence, cd, fr, exposure, which, mass=SAMP
 # result of the last calculation must be the one of a fresh environment constructed with the final values
 # (the fresh results are the points the row sweep compares with the exact reference).
 def hist_settings(tier):
-    return [(f, cd, fr) for f in HIST[tier]["fluence"] for cd in CD for fr in FAST]
+    return [(f, cd, fr) for f in HIST[tier]["fluence"] for cd in HIST_CD for fr in HIST_FAST]
 
 
 def set_env(env, old, new):
@@ -1022,7 +1039,7 @@ def _shard80(job):
             r0 = L.per_iso[key][0]
             if r0.index % 40 == 1:
                 acc.sample(dict(isotope=r0.isotope, rows=[[r.daughter, r.reaction] for r in L.per_iso[key]],
-                                grid=dict(fluence=g["fluence"], exposure=g["exposure"], Cd_ratio=CD, fast_ratio=FAST,
+                                grid=dict(fluence=g["fluence"], exposure=g["exposure"], Cd_ratio_x_fast_ratio=RATIOS,
                                           mass=MASS, rest=REST)))
     elif kind == "samples":
         _, tier, items = job
@@ -1118,7 +1135,7 @@ def run(ctx):
     ctx.pmap(_shard, jobs)
     acc = ctx.acc
     g = GRID[ctx.tier]
-    acc.info["grid_environments_per_row"] = (len(g["fluence"]) * len(g["exposure"]) * len(CD) * len(FAST)
+    acc.info["grid_environments_per_row"] = (len(g["fluence"]) * len(g["exposure"]) * len(RATIOS)
                                              * len(MASS) * len(REST))
     acc.info["rows"] = len(rows)
     acc.info["sample_formulas"] = len(items)
@@ -1165,4 +1182,4 @@ def _replay80(ctx, case):
     masses = MASS if case["mass"] in MASS else (MASS[0], case["mass"])
     rests = REST if case["rest"] in REST else (0.0, case["rest"])
     sweep_isotope(acc, L, key, (case["fluence"],), exposures, only={case["pos"]}, masses=masses, rests=rests,
-                  cds=(case["Cd_ratio"],), fasts=(case["fast_ratio"],), thresholds=False)
+                  ratios=((case["Cd_ratio"], case["fast_ratio"]),), thresholds=False)
